@@ -206,6 +206,58 @@ def run(ctx):
                                   "what": f"editing ({kind}) a node of the {side} changed the {'original' if side == 'copy' else 'copy'}"})
         if len(samples) < 3 and 2 <= sum(1 for _ in walk(root)) <= 4:
             samples.append({"original": before, "copy": copy_t})
+    # field values are whatever the caller put there: a default-namespace binding under the key None (what lxml reports), attribute and
+    # extras values that are not strings; "equal in every field" is Python equality including the type of keys and values (oracle only)
+    def typed(x):
+        if isinstance(x, dict):
+            return [(typed(k), typed(v)) for k, v in x.items()]
+        if isinstance(x, (list, tuple)):
+            return (type(x).__name__, [typed(y) for y in x])
+        return (type(x).__name__, x)
+    for i in range(60 if ctx.tier == "quick" else 600):
+        impl.reset()
+        t = rand_tree(rng, maxdepth=rng.choice([1, 2]))
+        root = build_shared(t, rng)
+        for n in walk(root):
+            r = rng.random()
+            if r < 0.3:
+                n.nsmap = {None: "urn:default", **n.nsmap} if rng.random() < 0.5 else {**n.nsmap, None: "urn:default"}
+            if rng.random() < 0.3:
+                n.attributes[rng.choice(["k", "n", "t"])] = rng.choice([1, 2.5, None, True, ("a", "b"), ["x"], {"d": 1}])
+            if rng.random() < 0.2:
+                n.extras[rng.choice(["xml:k", 7, None])] = rng.choice([0, None, ("t",)])
+        shape = lambda r_: [[n.name, typed(n.content), typed(n.tail), typed(n.prefix), typed(n.attributes), typed(n.extras), typed(n.nsmap)] for n in walk(r_)]
+        before_shape = shape(root)
+        try:
+            cp = root.copy()
+        except Exception as e:
+            fails.append({"case": {"tree": t, "exotic_values": True}, "what": f"copy() of a tree holding non-string values raised {type(e).__name__}: {e}"})
+            continue
+        nedits += 1
+        if shape(cp) != before_shape:
+            bad = [(a[0], [x for x, y in zip(a, b) if x != y][:1]) for a, b in zip(before_shape, shape(cp)) if a != b][:2]
+            fails.append({"case": {"tree": t, "exotic_values": True}, "what": f"the copy differs from the original in a field holding a non-string key or value: {bad}"[:400]})
+        elif shape(root) != before_shape:
+            fails.append({"case": {"tree": t, "exotic_values": True}, "what": "copy() changed the original"})
+    # copy, edit the copy's namespace map IN PLACE (re-bind an existing prefix, as fix_nsmap does), copy the original again:
+    # the second copy still equals the original (no state survives between copies)
+    for i in range(40 if ctx.tier == "quick" else 400):
+        impl.reset()
+        t = rand_tree(rng, maxdepth=rng.choice([0, 1, 2]))
+        root = build_shared(t, rng)
+        first = root.copy()
+        edited = False
+        for n in walk(first):
+            for k in list(n.nsmap):
+                if rng.random() < 0.7:
+                    n.nsmap[k] = "urn:rebound"; edited = True
+            for k in list(n.attributes):
+                if rng.random() < 0.3:
+                    n.attributes[k] = "rebound"; edited = True
+        second = root.copy()
+        nedits += 1
+        if value(second) != value(root):
+            fails.append({"case": {"tree": t, "copy_edit_copy": True}, "what": "after an in-place edit of an earlier copy, a new copy no longer equals the original"})
     if ctx.driver:
         outs = ctx.driver.batch(reqs)
         for (case, impl_norm, before), mo in zip(meta, outs):
